@@ -432,6 +432,16 @@ func monC03(w *World) {
 				return
 			}
 		}
+		if _, isProp := nd.curEvent.(hotstuff.ProposeMsg); isProp && known && w.kauri() && sender != nd.id {
+			// in the dissemination tree a proposal is handed on by other replicas, so the connection says nothing; what can
+			// be said is who made the block: an honest leader's proposal is a block that leader put together itself
+			if lp := w.primary(int(leader)); lp != nil && lp.honest {
+				if bi := w.reg.byHash[b.Hash()]; bi != nil && bi.by != nil && bi.by != lp {
+					w.violate("C03", "C03/leader@kauri-relay", nd, "%s signed a vote for %s (view %d) in the name of leader %d, which never made that block (it comes from %s)", nd, sym, b.View(), leader, bi.by)
+					return
+				}
+			}
+		}
 		// (2) carries a valid certificate
 		if ok, why := w.orc.qcBacked(b.QuorumCert()); !ok {
 			w.violate("C03", "C03/qc", nd, "%s signed a vote for %s whose certificate is not backed by a quorum: %s", nd, sym, why)
